@@ -10,7 +10,7 @@ RATES = [64.0, 128.0, 256.0, 1000.0, 4000.0]
 
 RULE = ("Cases: (consistency) methods {hilbert,nht,quad} x sample rates {64..4000} x smooth_phase in {default, 3, 31, None, 0} x smooth in-band AM-FM inputs with "
         "1-3 columns; (sinusoid) pure cosines with >=6 cycles per record, f <= sr/12, amplitude over 3 decades, start "
-        "phase in [0,2pi); (lattice, enumerated) cosines with a whole number P of samples per cycle (12..60 quick, 12..240 thorough) and peaks on samples - for odd P every trough lies between two exactly equal samples - x 4 shifts x 3 amplitudes x methods, checked pointwise (quad: 10% IF, 2% IA, 0.05 rad); (roundtrip) frequency profiles {constant, ramp, sinusoidally modulated, random smooth} in 1-3 "
+        "phase in [0,2pi); (lattice, enumerated) cosines with a whole number P of samples per cycle (12..60 quick, 12..240 thorough) and peaks on samples - for odd P every trough lies between two exactly equal samples - x 4 shifts x 3 amplitudes x methods, checked pointwise (quad: 10% IF, 2% IA, 0.05 rad); (storage) AM-FM IMF sets rounded to integers and stored as int64 / int32 / int16 / float32 vs the same values as float64 (1e-9, float32: 2e-3); (roundtrip) frequency profiles {constant, ramp, sinusoidally modulated, random smooth} in 1-3 "
         "columns through phase_from_freq -> freq_from_phase; (scale) x -> c*x for c=2^k (|k|<=8) and real c in "
         "[1e-3,1e3], plus amplitude_normalise sign/scale invariance; (stack) 3-D [samples x imfs x imfs2] input - C-contiguous, column-major, an axis-swapped view or a strided view - vs its 2-D slices; (reuse) one array object filled with two IMF sets in turn; (columns) 2-4 column sets, optionally with one non-oscillating column (constant / ramp / zero / single bump) and in C / column-major / strided layout, vs each column alone. Oracle: shapes; 0<=IP<=2pi (exact 2pi counted); "
         "IF == sr*gradient(unwrap(IP))/2pi (1e-6 rel); interior-half medians |IF-f|/f, |IA-A|/A, circular |IP-truth| "
@@ -190,6 +190,48 @@ def oracle_lattice(case, rec):
                             'err %.4g > %.4g (P=%d shift=%d sr=%g A=%.4g n=%d)' % (v, tl, P, case['shift'], sr, A, n))
     rec.cls('method=' + m)
     rec.cls('odd-period' if P % 2 else 'even-period')
+    return True
+
+
+@st.composite
+def storage_case(draw):
+    d = draw(amfm_case())
+    d['n'] = min(d['n'], 900)
+    d['dtype'] = draw(st.sampled_from(['i8', 'i2', 'i4', 'f4']))
+    d['gain'] = draw(st.sampled_from([100.0, 1000.0, 20000.0]))
+    return d
+
+
+def oracle_storage(case, rec):
+    """IMFs stored as integers (ADC counts) or in single precision: the transform of the stored array must be the transform of
+    the same values held as float64 - exactly for integer storage (the conversion is exact), to single precision for float32."""
+    import emd
+    x = amfm(case['n'], case['sr'], case['k'], case['f_rel'], case['am'], case['fm'], case['ncols'])
+    x = np.round(x * case['gain'] / np.abs(x).max())
+    dt = {'i8': np.int64, 'i4': np.int32, 'i2': np.int16, 'f4': np.float32}[case['dtype']]
+    stored = x.astype(dt)
+    if not np.array_equal(stored.astype(float), x):
+        raise Discard('values not representable in the storage type')
+    m = case['method']
+    ref = ft(emd, x.copy(), case['sr'], m, 'storage', case.get('smooth', 'default'))
+    got = ft(emd, stored.copy(), case['sr'], m, 'storage', case.get('smooth', 'default'))
+    if not np.array_equal(stored.astype(float), x):
+        raise Violation('C09/storage/input-modified/' + case['dtype'], '')
+    tol = 2e-3 if case['dtype'] == 'f4' else 1e-9
+    for name, a, b in zip(('IP', 'IF', 'IA'), got, ref):
+        a, b = np.asarray(a, dtype=float), np.asarray(b, dtype=float)
+        if a.shape != b.shape:
+            raise Violation('C09/storage/shape/%s/%s' % (name, m), '%r vs %r' % (a.shape, b.shape))
+        ok = np.isfinite(b)
+        if name == 'IP':
+            dev = np.abs(np.angle(np.exp(1j * (a[ok] - b[ok])))).max() if ok.any() else 0.0
+        else:
+            dev = (np.abs(a[ok] - b[ok]).max() / (np.abs(b[ok]).max() + 1e-300)) if ok.any() else 0.0
+        if not (dev <= tol) or not np.array_equal(np.isfinite(a), ok):
+            raise Violation('C09/storage/%s-depends-on-storage-dtype/%s/%s' % (name, m, 'integer' if case['dtype'][0] == 'i' else 'float32'),
+                            'max deviation %.3g from the float64 result (stored as %s, gain %g)' % (dev, case['dtype'], case['gain']))
+    rec.cls('method=' + m)
+    rec.cls('dtype=' + case['dtype'])
     return True
 
 
@@ -445,6 +487,8 @@ CLAUSES = [
            nt_rule='>=6 cycles in the record'),
     Clause('C09.lattice', oracle_lattice, enumerate=enum_lattice, quick=None, thorough=None, shards=(8, 16), exhaustive=True,
            nt_rule='every evaluated sample-aligned sinusoid'),
+    Clause('C09.storage', oracle_storage, strategy=storage_case(), quick=600, thorough=12000, shards=(4, 16),
+           nt_rule='every evaluated IMF set in integer / single-precision storage'),
     Clause('C09.roundtrip', oracle_rt, strategy=rt_case(), quick=2000, thorough=40000, shards=(2, 8),
            nt_rule='non-constant frequency profile'),
     Clause('C09.scale', oracle_scale, strategy=scale_case(), quick=800, thorough=20000, shards=(4, 16),
